@@ -620,7 +620,10 @@ class Accrual(LogicBlock):
 
         self.debug_log("Processing hit for step: %s", step)
         if not self.value[step]:
-            self.value[step] = True
+            # assign a new list instead of changing it in place so that subscribers of value are notified
+            value = list(self.value)
+            value[step] = True
+            self.value = value
             self.debug_log("Status: %s", self.value)
             self._post_hit_events(step=step)
 
